@@ -1,7 +1,7 @@
 (* C11 — A stream of pickles decodes one value per call, each as if it stood alone. *)
 From Coq Require Import List ZArith NArith Bool.
 From Coq.Strings Require Import Byte.
-From OgRek Require Import Base Value Reader Decoder DecoderFacts StreamFacts.
+From OgRek Require Import Base Value Reader Decoder Insn PyVM2 DecoderFacts StreamFacts ExecFacts SimFacts.
 Import ListNotations.
 
 (* Exactly through each STOP: if Decode accepts p (consuming all of it), then on p followed by
@@ -30,11 +30,36 @@ Theorem C11_stream :
 Proof. exact decode_all_chain. Qed.
 Print Assumptions C11_stream.
 
-(* NOT YET PROVED (hence the property is claimed as partial): that the value a self-contained
-   pickle decodes to from the predecessor's state (memo, heap) equals - up to renaming of heap
-   identities - the value it decodes to from a fresh Decoder, and that heap objects of earlier
-   results are not written by later self-contained pickles.  Both are decided on every run by
-   comparing each call with stand-alone decoding and by re-dumping earlier results afterwards. *)
+(* Streams against CPython (stream_rel, Proofs/SimFacts.v).  For EVERY list of instruction programs
+   (each ending with its STOP) - self-contained or not, at any mix of protocols, sharing the memo or
+   not - and every PyDict / StrictUnicode setting: if successive load() calls on one CPython
+   Unpickler (PyVM2.qload_all: the Unpickler keeps its memo and objects, each call starts with an
+   empty stack and protocol 0) return x1, x2, ..., then successive Decode calls on one Decoder over
+   the concatenated bytes return, call by call, a value related to the corresponding xk (C06
+   relation R, in the Python heap of that moment), consuming exactly through that pickle's STOP -
+   until one of the two exceptions of C06 occurs (a stale list view, the recorded finding; or, PyDict
+   off, the documented map-key error, which Decode reports as an error at that call).
+   `_partial`: relative to the CPython machine
+   (compared with CPython's own successive load() calls on every run) and up to R; the statement
+   "equal to decoding the pickle with a fresh Decoder" as an equation between Go values is decided
+   by the run (each call compared with stand-alone decoding, earlier results re-dumped at the end). *)
+Theorem C11_stream_against_cpython_partial : forall pd su progs xs rest,
+  Forall (fun p => after_stop p = []) progs ->
+  qload_all progs q_init = Some xs ->
+  stream_rel pd su init_state (concat (map asm_all progs) ++ rest) xs.
+Proof. exact stream_sim_fresh. Qed.
+Print Assumptions C11_stream_against_cpython_partial.
+
+(* two pickles sharing the memo: the second fetches the dict the first one stored and extends it *)
+Example C11_shared_memo_stream :
+  let p1 := [IEmptyDict; IBinput 2; IStop] in
+  let p2 := [IBinget 2; IBinint1 1; IBinint1 2; ISetitem; IStop] in
+  Forall (fun p => after_stop p = []) [p1; p2] /\
+  match qload_all [p1; p2] q_init with
+  | Some [(QRef a, _); (QRef b, st2)] => a = b /\ qheap_get (q_heap st2) b = Some (ODict [(QInt 1, QInt 2)])
+  | _ => False
+  end.
+Proof. vm_compute. repeat split; repeat constructor. Qed.
 
 Example C11_nonvacuous :
   let cfg := Build_dconfig false false None in
